@@ -29,6 +29,24 @@ def _ticks(instant) -> int:
 
 
 def _zone_case(args):
+    import signal
+
+    from checks._watchdog import Hang
+
+    def _on_alarm(signum, frame):
+        raise Hang("did not finish in time (the real code loops?)")
+
+    signal.signal(signal.SIGALRM, _on_alarm)
+    signal.alarm(1800 if not args[3] else 180)
+    try:
+        return _zone_case_inner(args)
+    except Hang as e:
+        return (args[1], 0, [f"{os.path.basename(args[0])}:{args[1]}: {e}"])
+    finally:
+        signal.alarm(0)
+
+
+def _zone_case_inner(args):
     path, zid, years_head, years_tail = args
     from pyoda_time import Instant
     from specs import nzd
